@@ -52,6 +52,7 @@ def setup(rep, tier):
     rep.minimum('R13.9', 6)
     rep.minimum('R13.10', 3)
     rep.minimum('R13.11', 1)
+    rep.minimum('R13.12', 1)
 
 
 def base_type(t):
@@ -608,7 +609,45 @@ def r13_11(rep, prog):
     return n
 
 
+# ------------------------------------------------------------------ R13.12
+def r13_12(rep, prog):
+    """the three analysis down-mix helpers (16-bit, 24-bit, float input) are one routine instantiated three times: they
+    must read the same samples.  The set of index expressions applied to the typed input view (channel c1, channel c2,
+    every channel c) is the same in each."""
+    forms = {}
+    for hname in ('downmix_int', 'downmix_int24', 'downmix_float'):
+        if not prog.has_fn(hname):
+            continue
+        h = prog.fn(hname)
+        lid, et = _typed_view(h)
+        if lid is None:
+            continue
+        rep.functions.add(hname)
+        idxs = {}
+        for n in h.all_nodes():
+            if sx.kind(n) == 'idx' and sx.kind(sx.strip(n[1])) == 'local' and sx.strip(n[1])[2] == lid:
+                # name-based normal form: the siblings use the same parameter names
+                idxs[sx.show(n[2])] = sx.line(n)
+        forms[hname] = (h, idxs)
+    if len(forms) < 2:
+        rep.unresolved('R13.12', '%s: fewer than two down-mix helpers found' % prog.config)
+        return 0
+    names = sorted(forms)
+    ref = set(forms[names[0]][1])
+    n = 0
+    for nm in names[1:]:
+        n += 1
+        h, idxs = forms[nm]
+        inst = '%s:%s and %s read the same samples of their input' % (prog.config, names[0], nm)
+        if set(idxs) == ref:
+            rep.holds('R13.12', inst, h.where(), 'index forms %s' % sorted(ref))
+        else:
+            rep.violated('R13.12', inst, h.where(), 'only in %s: %s; only in %s: %s' % (names[0], sorted(ref - set(idxs)), nm, sorted(set(idxs) - ref)), key='downmix-index:%s' % nm)
+    return n
+
+
 def check(rep, prog, tier):
+    r13_12(rep, prog)
     r13_11(rep, prog)
     r13_10(rep, prog)
     r13_9(rep, prog)
